@@ -66,8 +66,9 @@ def _rtf_blocks(blocks) -> str:
             for row in b[1]:
                 out.append("\\trowd" + "".join(f"\\cellx{(k + 1) * 2000}" for k in range(len(row))) + "\n")
                 for cell in row:
-                    paras = [x for x in cell if x[0] == "p"]
-                    out.append("\\pard\\intbl " + "\\par ".join(_rtf_inl(p[1]) for p in paras) + "\\cell\n")
+                    paras = [x for x in cell if x[0] in ("p", "h")]        # (a heading in a cell: a bold paragraph)
+                    out.append("\\pard\\intbl " + "\\par ".join(
+                        _rtf_inl(p[1]) if p[0] == "p" else "{\\b " + _rtf_inl(p[2]) + "}" for p in paras) + "\\cell\n")
                 out.append("\\row\n")
             out.append("\\pard\\par\n")        # an (empty) paragraph ends the table: adjacent tables stay separate
         elif t == "page":
